@@ -515,9 +515,44 @@ def stream_worlds(rule, F, fn, lmax, spec, key_of, spec_text, with_pred):
                     return sum(c[2] for c in w[x[2]:])
             if isinstance(t, tuple) and t[:2] == ("bidx", src):
                 return sum(c[2] for c in w[:t[2]])
+            if isinstance(t, tuple) and t[:1] == ("call",) and t[1].endswith("::len") and len(t[2]) == 1 and bytes_of(t[2][0]) is not None:
+                return len(bytes_of(t[2][0]))
             if isinstance(t, tuple) and t[:1] == ("lit",) and isinstance(t[1], int) and not isinstance(t[1], bool):
                 return t[1]
             return None
+        def bytes_of(t):
+            """the byte classes of `s.as_bytes()` / `suffix.as_bytes()`: a one-byte character is its own class, a wider one is `width` bytes of class M"""
+            # (`as_bytes` is a reference conversion the evaluator sees through: a str term that is indexed or slice-matched is its byte view)
+            x = t[2][0] if isinstance(t, tuple) and t[:1] == ("call",) and t[1].endswith("str::as_bytes") and len(t[2]) == 1 else t
+            if True:
+                cs = w if x == src else (w[x[2]:] if isinstance(x, tuple) and x[:2] == ("suffix", src) else None)
+                if cs is not None:
+                    out = []
+                    for c in cs:
+                        out += [c] if c[2] == 1 else [("M", False, 1)] * c[2]
+                    return out
+            return None
+
+        def byte_at(t):
+            if isinstance(t, tuple) and t[:1] == ("index",) and isinstance(t[2], tuple) and t[2][:1] == ("lit",) and isinstance(t[2][1], int):
+                bs = bytes_of(t[1])
+                if bs is not None:
+                    k = t[2][1] if t[2][1] >= 0 else len(bs) + t[2][1]
+                    return bs[k] if 0 <= k < len(bs) else "oob"
+            return None
+        if a[0] == "slice-shape":
+            bs = bytes_of(a[1])
+            if bs is not None:
+                return len(bs) == a[2] if a[3] else len(bs) >= a[2]
+        if a[0] == "eq":
+            for x, y in ((a[1], a[2]), (a[2], a[1])):
+                b_ = byte_at(x)
+                if b_ is not None and b_ != "oob" and y in (("lit", 37), ("lit", "%")):
+                    return b_[0] == "P"
+        if a[0] == "truth" and isinstance(a[1], tuple) and a[1][:1] == ("call",) and len(a[1][2]) == 1 and a[1][1].endswith("is_ascii_hexdigit"):
+            b_ = byte_at(a[1][2][0])
+            if b_ is not None and b_ != "oob":
+                return b_[0] == "H"
         if a[0] == "has" and a[1] == src:
             return a[2] < len(w)
         if a[0] == "eq":
